@@ -159,6 +159,12 @@ class Registry:
                     Repo.extra_bases[c].append(name)
             return name
 
+        def external_class(name, bases=()):
+            "a concrete class of a dependency whose methods are described by assumed contracts only"
+            from .front import EXTERNAL_BASES
+            EXTERNAL_BASES.setdefault(name, list(bases))
+            return name
+
         def lemma(name, **kw):
             kw["module"] = sm
             reg.lemmas[name] = kw
@@ -175,7 +181,8 @@ class Registry:
         from .sym_call import PYVAL
         ns["PYVAL"] = PYVAL
         ns.update(contract=contract, field=field, glob=glob, record=record, uninterpreted=uninterpreted, lemma=lemma,
-                  ghost=ghost, inline=inline, recursive=recursive, pseudo_base=pseudo_base, no_inline=no_inline, REG=reg)
+                  ghost=ghost, inline=inline, recursive=recursive, pseudo_base=pseudo_base, no_inline=no_inline, REG=reg,
+                  external_class=external_class)
         ns.update(self.shared)
         sm.ns = ns
         exec(compile(sm.src, path, "exec"), ns)
